@@ -81,3 +81,130 @@ Proof. vm_compute. reflexivity. Qed.
 Theorem sorted_records_keep_types : forall l o x,
   has_type (strip (sr_dedup l)) o x <-> has_type (strip l) o x.
 Proof. exact (sr_dedup_keeps_types eq_refl). Qed.
+
+(* ---- the sort step: whatever is put into SortedRecords comes out in
+   canonical owner order, nothing added, and (with the dedup) no (owner, type)
+   pair lost -- the precondition of the generators' theorems *)
+From Coq Require Import Permutation.
+
+Lemma sr_cmp_name x y : sr_cmp x y <> Gt -> name_cmp (sr_name x) (sr_name y) <> Gt.
+Proof. unfold sr_cmp. destruct (name_cmp (sr_name x) (sr_name y)); congruence. Qed.
+Lemma sr_cmp_name_gt x y : sr_cmp x y = Gt -> name_cmp (sr_name y) (sr_name x) <> Gt.
+Proof.
+  unfold sr_cmp. rewrite (name_cmp_antisym (sr_name x) (sr_name y)).
+  destruct (name_cmp (sr_name x) (sr_name y)); cbn [CompOpp]; congruence.
+Qed.
+
+Definition names_le (a b : srec) : Prop := name_cmp (sr_name a) (sr_name b) <> Gt.
+
+Lemma sr_insert_perm x l : Permutation (sr_insert x l) (x :: l).
+Proof.
+  induction l as [|y r IH]; cbn [sr_insert]; [apply Permutation_refl|].
+  destruct (sr_cmp x y); try apply Permutation_refl.
+  eapply Permutation_trans; [apply perm_skip; exact IH|apply perm_swap].
+Qed.
+
+Lemma sr_sort_perm l : Permutation (sr_sort l) l.
+Proof.
+  unfold sr_sort. induction l as [|a l IH]; cbn [fold_right]; [apply Permutation_refl|].
+  eapply Permutation_trans; [apply sr_insert_perm|apply perm_skip; exact IH].
+Qed.
+
+Lemma sr_insert_sorted x l : StronglySorted names_le l -> StronglySorted names_le (sr_insert x l).
+Proof.
+  induction 1 as [|y r Hs IH Hy]; cbn [sr_insert]; [repeat constructor|].
+  assert (Keep : sr_cmp x y <> Gt -> StronglySorted names_le (x :: y :: r)).
+  { intros Hle. constructor; [constructor; assumption|]. constructor; [apply sr_cmp_name; exact Hle|].
+    eapply Forall_impl; [|exact Hy]. intros z Hz. unfold names_le in *.
+    eapply name_cmp_le_trans; [apply sr_cmp_name; exact Hle|exact Hz]. }
+  destruct (sr_cmp x y) eqn:E.
+  - apply Keep. discriminate.
+  - apply Keep. discriminate.
+  - constructor; [exact IH|]. apply Forall_forall. intros z Hz.
+    apply (Permutation_in _ (sr_insert_perm x r)) in Hz as [<-|Hz].
+    + apply sr_cmp_name_gt. exact E.
+    + rewrite Forall_forall in Hy. apply Hy. exact Hz.
+Qed.
+
+Lemma sr_sort_sorted l : StronglySorted names_le (sr_sort l).
+Proof.
+  unfold sr_sort. induction l as [|a l IH]; cbn [fold_right]; [constructor|].
+  apply sr_insert_sorted. exact IH.
+Qed.
+
+Lemma sr_dedup_from_sub prev : forall l x, In x (sr_dedup_from prev l) -> In x l.
+Proof.
+  intros l; revert prev; induction l as [|y r IH]; intros prev x; cbn [sr_dedup_from]; [intros []|].
+  destruct (srec_eqb y prev); [intros H; right; eapply IH; exact H|].
+  intros [<-|H]; [left; reflexivity|right; eapply IH; exact H].
+Qed.
+
+Lemma sr_dedup_from_sorted prev : forall l, StronglySorted names_le l -> StronglySorted names_le (sr_dedup_from prev l).
+Proof.
+  intros l; revert prev; induction l as [|y r IH]; intros prev Hs; cbn [sr_dedup_from]; [constructor|].
+  apply StronglySorted_inv in Hs as [Hs Hy].
+  destruct (srec_eqb y prev); [apply IH; exact Hs|].
+  constructor; [apply IH; exact Hs|]. apply Forall_forall. intros z Hz.
+  rewrite Forall_forall in Hy. apply Hy. eapply sr_dedup_from_sub. exact Hz.
+Qed.
+
+Lemma names_le_zone_sorted l : StronglySorted names_le l -> zone_sorted (strip l).
+Proof.
+  unfold zone_sorted, strip. induction 1 as [|a l Hs IH Ha]; cbn [map]; constructor; [exact IH|].
+  apply Forall_forall. intros y Hy. apply in_map_iff in Hy as (b & <- & Hb).
+  rewrite Forall_forall in Ha. apply (Ha b Hb).
+Qed.
+
+Theorem sorted_records_sorted l : zone_sorted (strip (sorted_records l)).
+Proof.
+  apply names_le_zone_sorted. unfold sorted_records, sr_dedup.
+  pose proof (sr_sort_sorted l) as Hs. destruct (sr_sort l) as [|x r]; [constructor|].
+  apply StronglySorted_inv in Hs as [Hs Hx]. constructor; [apply sr_dedup_from_sorted; exact Hs|].
+  apply Forall_forall. intros z Hz. rewrite Forall_forall in Hx. apply Hx. eapply sr_dedup_from_sub. exact Hz.
+Qed.
+
+Theorem sorted_records_types l o x :
+  has_type (strip (sorted_records l)) o x <-> has_type (strip l) o x.
+Proof.
+  unfold sorted_records. rewrite sorted_records_keep_types.
+  unfold has_type, strip. split; intros (m & Hin & Em); exists m; (split; [|exact Em]);
+    apply in_map_iff in Hin as (r & Er & Hr); apply in_map_iff; exists r; (split; [exact Er|]).
+  - apply (Permutation_in _ (sr_sort_perm l)). exact Hr.
+  - apply (Permutation_in _ (Permutation_sym (sr_sort_perm l))). exact Hr.
+Qed.
+
+Example sorted_records_example :
+  strip (sorted_records [([[98]; [97]], 1, (true, [1])); ([[97]], 16, (true, [2])); ([[65]], 1, (true, [9]));
+                         ([[97]], 16, (true, [2])); ([[97]], 1, (true, [3]))]) =
+  [([[97]], 1); ([[65]], 1); ([[97]], 16); ([[98]; [97]], 1)].
+Proof. vm_compute. reflexivity. Qed.
+
+(* ---- end to end: records in any order -> SortedRecords -> generate_nsecs *)
+From DV Require Import C13.ProofsNsec2 C13.ProofsDeny.
+
+Lemma auth_name_ext apex z1 z2 : (forall o x, has_type z1 o x <-> has_type z2 o x) ->
+  forall n, auth_name apex z1 n <-> auth_name apex z2 n.
+Proof.
+  intros Hx n.
+  assert (D : forall cn, deleg apex z1 cn <-> deleg apex z2 cn).
+  { intros cn. unfold deleg. rewrite Hx. reflexivity. }
+  unfold auth_name, owner_in, occluded. split; intros ((t & Ht) & Hz & Hno).
+  - split; [exists t; apply Hx; exact Ht|]. split; [exact Hz|].
+    intros (cn & Hd & Hs). apply Hno. exists cn. split; [apply D; exact Hd|exact Hs].
+  - split; [exists t; apply Hx; exact Ht|]. split; [exact Hz|].
+    intros (cn & Hd & Hs). apply Hno. exists cn. split; [apply D; exact Hd|exact Hs].
+Qed.
+
+Theorem sorted_records_nsec_owners l apex dk out :
+  generate_nsecs apex dk (strip (sorted_records l)) = Ok out ->
+  (forall n, auth_name apex (strip l) n <-> exists r, In r out /\ name_eqb (n_owner r) n = true) /\
+  StronglySorted (fun a b => name_cmp (n_owner a) (n_owner b) = Lt) out /\
+  (out <> [] -> map n_next out = tl (map n_owner out) ++ [apex]).
+Proof.
+  intros Ho. pose proof (sorted_records_sorted l) as Hs.
+  split; [|split].
+  - intros n. rewrite <- (auth_name_ext apex _ _ (sorted_records_types l) n).
+    apply (nsec_owners apex _ Hs dk out Ho).
+  - apply (nsec_sorted apex _ Hs dk out Ho).
+  - apply (nsec_closed apex _ dk out Ho).
+Qed.
